@@ -3,6 +3,7 @@ mod codec;
 mod decoder;
 mod diag;
 mod gap;
+mod las;
 mod phyrx;
 mod prm;
 mod station;
@@ -31,6 +32,7 @@ fn engine(name: &str) -> Option<(fn(&mut Vec<String>, u64, bool), Box<dyn Execut
         "gap" => Some((gap::gen, Box::new(Stateless(gap::exec)))),
         "station" => Some((station::gen, Box::new(station::Exec::new()))),
         "prm" => Some((prm::gen, Box::new(prm::PrmExec::new()))),
+        "las" => Some((las::gen, Box::new(las::Exec::new()))),
         "phyrx" => Some((phyrx::gen, Box::new(phyrx::Exec::new()))),
         _ => None,
     }
